@@ -156,6 +156,12 @@ func Method(name string, v any, p, s *int64) (any, error) {
 			f, _ := r.Float64()
 			return f, nil
 		}
+		if *p > math.MaxInt32 || *p < math.MinInt32 || (s != nil && (*s > math.MaxInt32 || *s < math.MinInt32)) {
+			// an argument that is not even an int32: PostgreSQL reports it through the
+			// suppressible channel, the statement lists "invalid precision or scale" as
+			// non-suppressible - not pinned
+			return nil, unspec("decimal argument outside the int32 range")
+		}
 		if *p < 1 || *p > 1000 {
 			return nil, hard("NUMERIC precision out of range")
 		}
